@@ -114,7 +114,9 @@ HasPrefix(s, p) == Len(s) >= Len(p) /\ \A i \in 1..Len(p) : s[i] = p[i]
 RECURSIVE LE(_)
 LE(b) == IF Len(b) = 0 THEN 0 ELSE b[1] + 256 * LE(Tail(b))
 
-\* the one non-negative height whose canonical push can begin s
+\* the one non-negative height whose canonical push can begin s (a block
+\* height is never negative: scripts that begin with the push of a negative
+\* script number commit to no height and are refused)
 Candidate(s) ==
     IF Len(s) = 0 THEN -1
     ELSE IF s[1] = 0 THEN 0
